@@ -45,9 +45,13 @@ Fixpoint marked_prefixes (ks : list string) : list string :=
 
 Definition under_prefix (p key : string) : bool := str_prefix_of (p ++ "/")%string key.
 
+(* prefixes recognised as Kopf's own without a marker: kopf.zalando.org and its subdomains *)
+Definition known_without_marker (prefix : string) : bool :=
+  String.eqb prefix known_prefix || str_suffix_of ("." ++ known_prefix)%string prefix.
+
 (* _store_marker(prefix, patch, body) *)
 Definition store_marker (prefix : string) (body patch : json) : res json :=
-  if negb (String.eqb prefix "") && negb (str_prefix_of "kopf." prefix) then
+  if negb (String.eqb prefix "") && negb (known_without_marker prefix) then
     let marker := (prefix ++ "/" ++ marker_name)%string in
     match resolve_strict body ["metadata"; "annotations"; marker], resolve_strict patch ["metadata"; "annotations"; marker] with
     | ErrType, _ | _, ErrType => ErrType
